@@ -7,8 +7,8 @@ the refinement proofs intact, semantic changes must break one.
 Works in a scratch worktree of the C repository (/tmp/c2l_scratch, created with `git -C /repo worktree add --detach`, removed at
 the end); never touches /repo's files.  For every experiment: apply the textual edit to libscpi/src/fifo.c, run the translator
 (VERIF_REPO=/tmp/c2l_scratch), `lake build ScpiVerif.Props.C10`, report which declarations fail; with --full also
-`tools/check.py C10 --tier quick` (harness + differential search for a concrete failing input).  The generated file and the
-evidence are restored from the unchanged /repo at the end.
+`tools/check.py C10 --tier quick` (harness + differential search for a concrete failing input).  The generated files are restored
+from the unchanged /repo at the end (with --full, run `tools/check.py C10` once more afterwards to rewrite evidence/C10.json).
 """
 import os, re, subprocess, sys, json
 HERE = os.path.dirname(os.path.abspath(__file__))
@@ -130,7 +130,7 @@ def main():
         sh(["git", "-C", REPO, "worktree", "remove", "--force", SCRATCH])
         base = dict(os.environ)
         base.pop("VERIF_REPO", None)
-        sh([sys.executable, os.path.join(VERIF, "translate", "c2lean.py")], env=base)
+        sh([sys.executable, os.path.join(VERIF, "translate", "extract.py"), "A"], env=base)   # Gen/Tables.lean and Gen/FifoC.lean from /repo again
     print("\n| id | kind | change | translator | lake build Props.C10 | broken declarations |" + (" check.py C10 |" if full else ""))
     print("|---|---|---|---|---|---|" + ("---|" if full else ""))
     for r in rows:
